@@ -66,7 +66,8 @@ func parseRoute(node *treeNode, path string, method string, info *RouteInfo) (pa
 		return 0, errors.New("invalid method " + method + " for routePath: " + path)
 	}
 
-	var paramNameList []string
+	// collect the child names first: a rejected route must leave the tree unchanged
+	var paramNameList, nameList []string
 	var length, left, right int = len(path), 0, 0
 	for ; right <= length; right++ {
 		if right < length && path[right] != '/' {
@@ -76,7 +77,7 @@ func parseRoute(node *treeNode, path string, method string, info *RouteInfo) (pa
 			// skip empty fragment
 		} else if path[left+1:right] == "*" {
 			paramNameList = append(paramNameList, routeParamAny)
-			node = node.nextNodeOrNew(routeParamAny)
+			nameList = append(nameList, routeParamAny)
 			break
 		} else if path[left+1] == ':' {
 			paramName := path[left+2 : right]
@@ -84,15 +85,26 @@ func parseRoute(node *treeNode, path string, method string, info *RouteInfo) (pa
 				return 0, errors.New("invalid fragment :" + paramName + " in routePath: " + path)
 			}
 			paramNameList = append(paramNameList, paramName)
-			node = node.nextNodeOrNew(routeParam)
+			nameList = append(nameList, routeParam)
 		} else {
-			node = node.nextNodeOrNew(path[left+1 : right])
+			nameList = append(nameList, path[left+1:right])
 		}
 		left = right
 	}
 
-	if _, ok = node.next[methodTag]; ok {
-		return 0, errors.New("duplicate method " + method + " for routePath: " + path)
+	exist := node
+	for _, name := range nameList {
+		if exist = exist.next[name]; exist == nil {
+			break
+		}
+	}
+	if exist != nil {
+		if _, ok = exist.next[methodTag]; ok {
+			return 0, errors.New("duplicate method " + method + " for routePath: " + path)
+		}
+	}
+	for _, name := range nameList {
+		node = node.nextNodeOrNew(name)
 	}
 	node = node.nextNodeOrNew(methodTag)
 	node.info = info
